@@ -48,6 +48,8 @@ pub struct NodeState {
     pub calls: u64,
     /// when set, the call with this index (and the following ones while `down`) fails
     pub outage_at: Option<u64>,
+    /// shared with the simulated block source: the node as a whole is unreachable
+    pub link: Option<std::sync::Arc<std::sync::atomic::AtomicBool>>,
 }
 
 #[derive(Clone, Default)]
@@ -111,6 +113,13 @@ impl Transport for SimNode {
         st.calls += 1;
         if st.outage_at == Some(idx) {
             st.down = true;
+            st.outage_at = None;
+            if let Some(l) = &st.link {
+                l.store(true, std::sync::atomic::Ordering::SeqCst);
+            }
+        }
+        if let Some(l) = &st.link {
+            st.down = l.load(std::sync::atomic::Ordering::SeqCst);
         }
         if st.down {
             return Err(Error::Transport(Box::new(Outage)));
